@@ -47,10 +47,11 @@ theorem filter_range_getD {α : Type} (l : List α) (d : α) (p : α → Bool) :
   rw [this, List.filter_map, List.length_map]
   rfl
 
-/-- visiting the positions in the order of `argsort` counts the same entries as visiting them in storage order -/
-theorem count_argsort {α : Type} (l : List α) (d : α) (data : List Int) (hlen : data.length = l.length)
-    (p : α → Bool) : ((argsort data).filter (fun i => p (l.getD i d))).length = (l.filter p).length := by
-  have hp := (argsort_perm data).filter (fun i => p (l.getD i d))
+/-- visiting the positions in the order of a permutation counts the same entries as visiting them in storage order -/
+theorem count_argsort {α : Type} (l : List α) (d : α) (order : List Nat) (m : Nat)
+    (hperm : order.Perm (List.range m)) (hlen : m = l.length)
+    (p : α → Bool) : (order.filter (fun i => p (l.getD i d))).length = (l.filter p).length := by
+  have hp := hperm.filter (fun i => p (l.getD i d))
   rw [hp.length_eq, hlen, filter_range_getD]
 
 /-! ### `get_edge_colors` -/
@@ -92,9 +93,10 @@ theorem edgeLabelStep_struct {nRow nCol : Nat} {es posEs : List Entry} {colors :
       simp [List.filter_cons, hz']
     simp [this, h2]
 
-theorem getEdgeColors_struct {nRow nCol : Nat} {es : List Entry} {labels : List (Int × Int × Int)} {edgeColor : PyStr}
-    {lc : LabelColors} {ec : EdgeColors} (h : getEdgeColors nRow nCol es labels edgeColor lc = .ok ec) :
-    (∃ data : List Int, ec.order = argsort data ∧ data.length = (es.filter fun e => e.2.2 > 0).length) ∧
+theorem getEdgeColors_struct {sort : List Int → List Nat} {nRow nCol : Nat} {es : List Entry}
+    {labels : List (Int × Int × Int)} {edgeColor : PyStr}
+    {lc : LabelColors} {ec : EdgeColors} (h : getEdgeColors sort nRow nCol es labels edgeColor lc = .ok ec) :
+    (∃ data : List Int, ec.order = sort data ∧ data.length = (es.filter fun e => e.2.2 > 0).length) ∧
     ec.residual.map (fun r => (r.1, r.2.1)) = residPairs es labels := by
   unfold getEdgeColors at h
   simp only at h
@@ -219,7 +221,7 @@ def graphEdgeCount (a : GraphArgs) (pos : List (Rat × Rat)) : Nat :=
   else 0
 
 theorem graphEdgeParts_shape {ν : Nums} {a : GraphArgs} {pos : List (Rat × Rat)} {ps : List PyStr × List Piece}
-    (hnn : NonNeg a.entries) (h : graphEdgeParts ν a pos = .ok ps) :
+    (hsort : SortOk ν) (hnn : NonNeg a.entries) (h : graphEdgeParts ν a pos = .ok ps) :
     Shape ps.2 ⟨0, 0, graphEdgeCount a pos, []⟩ := by
   unfold graphEdgeParts at h
   unfold graphEdgeCount
@@ -246,7 +248,7 @@ theorem graphEdgeParts_shape {ν : Nums} {a : GraphArgs} {pos : List (Rat × Rat
       exact pos_filter_of_nonneg _ hnn'
     rw [hpos] at hdata
     have h1 := storedEdges_shape hstored
-    rw [hord, count_argsort (graphEs a) (0, 0, 0) data hdata
+    rw [hord, count_argsort (graphEs a) (0, 0, 0) _ _ (hsort data) hdata
       (fun e => drawn (graphDirected a) pos e.1 e.2.1)] at h1
     have h2 := residEdges_shape ν (graphDirected a) pos ec.residual
     rw [hres] at h2
